@@ -143,23 +143,29 @@ func ParseEntities(op modelv1.LogicalExpression_LogicalOp, input []*modelv1.TagV
 		if !leftAny && rightAny {
 			return left
 		}
-		mergedEntities = append(mergedEntities, left...)
-		mergedEntities = append(mergedEntities, right...)
-		for i := 0; i < count; i++ {
-			entry := pbv1.AnyTagValue
-			for j := 0; j < len(mergedEntities); j++ {
-				e := mergedEntities[j][i]
-				if e == pbv1.AnyTagValue {
-					continue
+		// Each side is a disjunction of entities (IN or OR yields several), so the
+		// conjunction is every pairwise intersection that is not contradictory.
+		for _, l := range left {
+		NEXT_PAIR:
+			for _, r := range right {
+				merged := make([]*modelv1.TagValue, count)
+				for i := 0; i < count; i++ {
+					switch {
+					case l[i] == pbv1.AnyTagValue:
+						merged[i] = r[i]
+					case r[i] == pbv1.AnyTagValue || pbv1.MustCompareTagValue(l[i], r[i]) == 0:
+						merged[i] = l[i]
+					default:
+						continue NEXT_PAIR
+					}
 				}
-				if entry == pbv1.AnyTagValue {
-					entry = e
-				} else if pbv1.MustCompareTagValue(entry, e) != 0 {
-					return nil
-				}
+				mergedEntities = append(mergedEntities, merged)
 			}
-			result[i] = entry
 		}
+		if len(mergedEntities) == 0 {
+			return nil
+		}
+		return mergedEntities
 	case modelv1.LogicalExpression_LOGICAL_OP_OR:
 		if leftAny {
 			return left
@@ -169,13 +175,16 @@ func ParseEntities(op modelv1.LogicalExpression_LogicalOp, input []*modelv1.TagV
 		}
 		mergedEntities = append(mergedEntities, left...)
 		mergedEntities = append(mergedEntities, right...)
+		// Collapse to one entity only if all of them are the same; a wildcard is
+		// not "unset" here, it matches more than any literal in its position.
 		for i := 0; i < count; i++ {
-			entry := pbv1.AnyTagValue
-			for j := 0; j < len(mergedEntities); j++ {
+			entry := mergedEntities[0][i]
+			for j := 1; j < len(mergedEntities); j++ {
 				e := mergedEntities[j][i]
-				if entry == pbv1.AnyTagValue {
-					entry = e
-				} else if pbv1.MustCompareTagValue(entry, e) != 0 {
+				if (entry == pbv1.AnyTagValue) != (e == pbv1.AnyTagValue) {
+					return mergedEntities
+				}
+				if entry != pbv1.AnyTagValue && pbv1.MustCompareTagValue(entry, e) != 0 {
 					return mergedEntities
 				}
 			}
